@@ -327,6 +327,6 @@ PARTS = [
     Part("clean", eval_clean, {"quick": 3000, "thorough": 100000}, strategy=lambda tier: composite_curve(tier), min_nontrivial={"quick": 460, "thorough": 20000}),
     Part("linearise", eval_lin, {"quick": 400, "thorough": 10000}, strategy=lambda tier: th_profile(tier), min_nontrivial={"quick": 50, "thorough": 1500}),
 ]
-MIN_SHARE = {"linearise": {"hot": 0.28, "cold": 0.2, "rdp-keeps>10": 0.05}}
+MIN_SHARE = {"linearise": {"hot": 0.25, "cold": 0.15, "rdp-keeps>10": 0.05}}
 
 FUZZ = {"clean": None}  # parts also driven by the coverage-guided supplement (thorough tier)
